@@ -131,9 +131,17 @@ def call(op, cmd):
 # ------------------------------------------------------------------------ pty mode
 
 
-def leftover(fd):
-    """Everything readable on the terminal right now, read with our own code (not the
-    library's), in non-canonical mode; the previous attributes are restored."""
+SENTINEL = b"~~C12-END-OF-CASE~~"
+
+
+def leftover(fd, send):
+    """Everything the call left unread on the terminal, read with our own code (not the
+    library's) in non-canonical mode; the previous attributes are restored.
+
+    Deterministic whatever the machine load: the terminal side is told when the tty is in
+    raw mode ("ready"), then writes what it held back as LATE followed by a sentinel; the
+    tty is FIFO, so once the sentinel has been read everything written before it has been
+    read too."""
     old = termios.tcgetattr(fd)
     new = termios.tcgetattr(fd)
     new[3] &= ~(termios.ICANON | termios.ECHO)
@@ -142,14 +150,17 @@ def leftover(fd):
     out = bytearray()
     try:
         termios.tcsetattr(fd, termios.TCSANOW, new)
-        while select.select([fd], [], [], 0.0)[0]:
-            chunk = os.read(fd, 4096)
-            if not chunk:
-                break
-            out += chunk
+        send({"ready": True})
+        deadline = time.monotonic() + 15.0
+        while not out.endswith(SENTINEL) and time.monotonic() < deadline:
+            if select.select([fd], [], [], 0.5)[0]:
+                out += os.read(fd, 4096)
     finally:
         termios.tcsetattr(fd, termios.TCSANOW, old)
-    return list(out)
+    seen = out.endswith(SENTINEL)
+    if seen:
+        del out[-len(SENTINEL):]
+    return list(out), seen
 
 
 def pty_main():
@@ -157,6 +168,17 @@ def pty_main():
     res_f = os.fdopen(int(sys.argv[3]), "w")
     fd = utils._tty_fd
     attr0 = termios.tcgetattr(fd)
+
+    # pass-through time stamp of every request written (the reference point of the
+    # terminal side's "was my reply really timely" check); nothing else is touched
+    writes = []
+    real_write = utils.write_tty
+
+    def stamped_write(data):
+        writes.append(time.monotonic())
+        return real_write(data)
+
+    utils.write_tty = stamped_write
 
     def send(obj):
         res_f.write(json.dumps(obj) + "\n")
@@ -168,18 +190,19 @@ def pty_main():
         if cmd["op"] == "quit":
             break
         if cmd["op"] == "leftover":
-            # the parent has finished writing; report what the call left unread
             attr = termios.tcgetattr(fd)
-            send({"leftover": leftover(fd), "attr_restored": attr == attr0})
+            lo, seen = leftover(fd, send)
+            send({"leftover": lo, "sentinel_seen": seen, "attr_restored": attr == attr0})
             termios.tcflush(fd, termios.TCIFLUSH)
             continue
         reset_library(cmd)
         termios.tcflush(fd, termios.TCIFLUSH)
         size = list(os.get_terminal_size(fd))
+        del writes[:]
         t0 = time.monotonic()
         res = call(cmd["op"], cmd)
         t1 = time.monotonic()
-        res.update(t0=t0, t1=t1, size=size)
+        res.update(t0=t0, t1=t1, size=size, writes=list(writes))
         send(res)
 
 
